@@ -506,8 +506,8 @@ def tasks():
         out.append(ContractTask(c, regf_inline_timer if c.target.startswith("lemma:") else regf))
     # a ping only probes the peer if it really goes out: Outbound.send_if_connected (under contract with C10/C15's Outbound
     # model) hands every control record to the current connection, whatever the flow-control state
-    from . import c10
-    out += [t for t in c10.tasks() if getattr(t, "contract", None) is not None and t.contract.target.endswith("Outbound.send_if_connected")]
+    from .common import shared_tasks
+    out += shared_tasks("c16", "c10", ("Outbound.send_if_connected",))
     return out
 
 
